@@ -268,7 +268,7 @@ func genReq(c *Ctx, fx *Fixture, urlOnly, nestedInBody bool) *dynamicpb.Message 
 		set("db", protoreflect.ValueOfFloat64([]float64{0.1, -2.5, 1.7976931348623157e308, 5e-324, 1 << 53}[c.Rng.Intn(5)]))
 	}
 	if pick(3) {
-		set("kind", protoreflect.ValueOfEnum([]protoreflect.EnumNumber{1, 2, -3}[c.Rng.Intn(3)]))
+		set("kind", protoreflect.ValueOfEnum([]protoreflect.EnumNumber{1, 2, -3, 7, 2147483647, -9}[c.Rng.Intn(6)])) // proto3 enums are open: 7, MaxInt32, -9 have no declared value
 	}
 	if pick(3) {
 		set("other_name", protoreflect.ValueOfString(strs[c.Rng.Intn(len(strs))]))
@@ -373,7 +373,10 @@ func queryOf(m protoreflect.Message, prefix string, skip map[string]bool, q url.
 			case protoreflect.BytesKind:
 				return base64.StdEncoding.EncodeToString(v.Bytes())
 			case protoreflect.EnumKind:
-				return string(fd.Enum().Values().ByNumber(v.Enum()).Name())
+				if ev := fd.Enum().Values().ByNumber(v.Enum()); ev != nil && v.Enum()&1 == 1 { // odd declared values by name, even ones by number
+					return string(ev.Name())
+				}
+				return strconv.Itoa(int(v.Enum())) // the number: the only spelling of a value without a name
 			case protoreflect.MessageKind:
 				b, _ := protojson.Marshal(v.Message().Interface())
 				s := string(b)
@@ -505,13 +508,18 @@ func c03API(c *Ctx, pf *paramFx) {
 				r.ContentLength = -1
 			}
 		}
+		// what the client wants BACK says nothing about how its request body is encoded
+		accept := []string{"", "", "application/json", "application/protobuf", "*/*", "application/octet-stream"}[c.Rng.Intn(6)]
+		if accept != "" {
+			r.Header.Set("Accept", accept)
+		}
 		pf.got = nil
 		rec, pn := fx.Serve(r)
 		dropEmptyNested(M)
 		if pf.got != nil {
 			dropEmptyNested(pf.got)
 		}
-		in := fmt.Sprintf("%s %s ct=%s gzip=%v chunked=%v M=%s", shape, trunc([]byte(reqURL), 800), ct, zip, chunked, trunc([]byte(prototextS(M)), 1500))
+		in := fmt.Sprintf("%s %s ct=%s accept=%q gzip=%v chunked=%v M=%s", shape, trunc([]byte(reqURL), 800), ct, accept, zip, chunked, trunc([]byte(prototextS(M)), 1500))
 		c.Eval("api-reconstruct", in, true)
 		c.Class("api:" + shape)
 		if pn != nil {
